@@ -293,6 +293,33 @@ func checkC15(c *Check) {
 				c.Bad("no-error-dropped", name, pos, "the error is assigned in a loop without being tested in the same iteration: a later iteration overwrites it and the failure is masked")
 				return
 			}
+			// returned, but never tested: the return that carries it must be
+			// reached on every path from the call. A return of the error that
+			// sits under a condition on something else (another variable)
+			// drops the failure whenever that condition is false.
+			if len(fl.Returned) > 0 && len(fl.Sent) == 0 && len(fl.Tested) == 0 && !inLoop(in) {
+				same := true
+				for _, ri := range fl.Returned {
+					if ri.Parent() != fn {
+						same = false
+					}
+				}
+				if same && nilKind(NewResolver(p), ev, in) != IsNil {
+					isCarrier := func(x ssa.Instruction) bool {
+						for _, ri := range fl.Returned {
+							if ri == x {
+								return true
+							}
+						}
+						return false
+					}
+					other := searchAvoiding(fn, in, func(x ssa.Instruction) bool { return isReturn(x) && !isCarrier(x) && x.Block() != fn.Recover }, nil)
+					if other != nil {
+						c.Bad("no-error-dropped", name, pos, "the error is never tested; it is returned only at "+p.InstrPos(fl.Returned[0])+", under a condition that looks at something else, and the return at "+p.InstrPos(other)+" is reachable without it: on that path the failure is dropped silently")
+						return
+					}
+				}
+			}
 			how := "returned"
 			if len(fl.Sent) > 0 && len(fl.Returned) == 0 {
 				how = "sent on an error channel"
